@@ -10,6 +10,7 @@
 (*   Construct(iid, args, kwargs)   Parse(iid, bytes)   FailedParse(bytes) *)
 (*   SetField(iid, path, value)     Dump(iid)           Eq(iid, jid)       *)
 (*   Bool(iid)   Load(cs)  SetEndian(cs, e)  AddType(cs)  (other object)   *)
+(*   EqPart(iid, member j, jid)  a union's structure member vs an instance *)
 (***************************************************************************)
 EXTENDS SessionSpec, TLC, Json, IOUtils
 
@@ -51,6 +52,14 @@ Clauses(ev, nxt) ==
                             same == a.cs = b.cs /\ a.cls = b.cls /\ ValEq(a.val, b.val)
                         IN (IF ev.obs.eq = same THEN {} ELSE {"eq"})
                            \cup (IF same /\ ev.obs.hashable /\ ~ev.obs.heq THEN {"hash"} ELSE {})
+     \* a structure that is a member of a union (the implementation hands out a proxy for it) against a free-standing instance:
+     \* the same value whichever side it stands on (finding F57)
+     [] ev.ev = "EqPart" -> LET a == Find(ev.iid).val.vals[ev.j]
+                                b == Find(ev.jid)
+                                same == a.k = "struct" /\ a.cls = b.cls /\ ValEq(a, b.val)
+                            IN (IF ev.obs.lr = same THEN {} ELSE {"eq"})
+                               \cup (IF ev.obs.rl = same THEN {} ELSE {"eq-symmetry"})
+                               \cup (IF same /\ ev.obs.hashable /\ ~ev.obs.heq THEN {"hash"} ELSE {})
      [] ev.ev = "SetField" -> IF ev.obs.status = "ok" THEN {} ELSE {"setfield"}
      [] ev.ev = "Bool" -> IF ev.obs.result = Bool(Find(ev.iid).val) THEN {} ELSE {"bool"}
      [] OTHER -> {})
